@@ -1228,7 +1228,7 @@ fn gen_c19_conv(r: &mut Rng) -> Plan {
         if !idxs.is_empty() {
             let i = *r.pick(&idxs);
             if let Act::Program(p) = &mut cmds[i].act {
-                let at = r.below(p.units.len() as u64 + 1) as u32;
+                let at = r.below(p.units.len() as u64 + 2) as u32;
                 p.ret_err = Some((at, 0xE000_0000 | r.below(1 << 20) as u32));
             }
         } else if let Some(c) = cmds.iter_mut().find(|c| matches!(c.act, Act::Prepare(_))) {
@@ -2138,6 +2138,18 @@ impl Check for C20 {
         }
     }
     fn run_job(&self, rng: &mut Rng, _tier: Tier, job: u64, ctx: &mut JobCtx<'_>) {
+        if job % 1_000 == 500 {
+            // a well-formed conversation that ends with COM_QUIT, also over a real socket whose
+            // client end stays open: the server must hang up by itself, not wait for the client
+            let mut o = super::conv::ConvOpts::std();
+            o.max_cmds = 6;
+            o.quit_at_end = 100;
+            let cmds = super::conv::gen_conv(rng, &o);
+            let plan = super::conv::finish_plan(rng, cmds);
+            ctx.eval(&plan);
+            super::props::tcp_always(&plan, ctx);
+            return;
+        }
         let mut plan = gen_c20(rng, job);
         if rng.chance(1, 25) && plan.faults.is_empty() {
             // the other way to spin: a transport that stops accepting bytes (write returns
@@ -2149,6 +2161,7 @@ impl Check for C20 {
             });
         }
         ctx.eval(&plan);
+        super::props::tcp_share(&plan, job, ctx);
     }
     fn owns(&self, rule: &str) -> bool {
         ["panic", "framing", "wedged"].contains(&rule)
